@@ -400,7 +400,7 @@ def k_transform(run, case, rng, work):
     if form == "npy":
         np.save(path, M)
     elif form == "txt":
-        np.savetxt(path, M)
+        form = "txt/" + gen.save_matrix_text(rng, path, M) if np.asarray(M).ndim == 2 else (np.savetxt(path, M), "txt")[1]
     else:
         q = rm.quat_wxyz_from_rot(R)
         d = {"x": float(t[0]), "y": float(t[1]), "z": float(t[2]), "qw": float(q[0]), "qx": float(q[1]),
